@@ -122,9 +122,22 @@ Theorem C18_flip_inside_rotate_record_undetected_refuted :
 Proof. exact ex_flip_inside_rotate_record_refuted. Qed.
 
 Theorem C18_chunk_chain_crc_checked_when_repaired :
-  forall fx u h r from si eoff ts ev pa ca c, h_crc h <> c ->
-  read_files fx true u (h :: r) from si eoff ts ev pa ca (Some c) = {| rr_ev := rev ev; rr_err := ECrc; rr_pos := pa; rr_crc := ca |}.
+  forall fx fe u h r from si eoff ts ev pa ca c, h_crc h <> c ->
+  read_files fx true fe u (h :: r) from si eoff ts ev pa ca (Some c) = {| rr_ev := rev ev; rr_err := ECrc; rr_pos := pa; rr_crc := ca |}.
 Proof. exact read_files_chain_mismatch. Qed.
+
+(* FINDING F-C18c — residual after the committed repair of F-C18a: a flipped length bit lets the damaged event swallow the
+   rest of its chunk including the levRotateTo record; the chunk-to-chunk crc comparison is skipped (no levRotateTo seen),
+   every later checksum record is accepted and the damaged event is delivered without error.  Repaired variant (fx_eof):
+   the crc at the end of a chunk without levRotateTo is compared with the next chunk's header as well. *)
+Theorem C18_flip_swallowing_rotate_record_undetected_refuted :
+  let img := flip_files 0 48 6 (image_of ex2_w) in
+  map (fun f => len f) (image_of ex2_w) = [140; 152; 36] /\
+  rr_err (replay4 true true false false ex_u 12345 img 0 None) = ENone /\
+  map (fun e => (fst e, len (snd e))) (applies (rr_ev (replay4 true true false false ex_u 12345 img 0 None))) = [(44, 85); (176, 2); (188, 60)] /\
+  rr_err (replay4 true true true false ex_u 12345 img 0 None) = ECrc /\
+  rr_err (replay4 true true true false ex_u 12345 (image_of ex2_w) 0 None) = ENone.
+Proof. exact ex2_swallow_refuted. Qed.
 
 (* the repaired reader (fx_rot = true) verifies it *)
 Theorem C18_rotate_crc_checked_when_repaired :
